@@ -85,6 +85,12 @@ fixed("C20", "nil OnCollectionIntf * top panic@*", "92cd929", "OnCollectionIntf 
 fixed("C20", "nil *ToItemCollection * top panic@ToItemCollection", "17f659c", "ToItemCollection/OnItemCollection dereferenced nil collection pointers", "cells: OnItemCollection (*Collection)(nil) top")
 fixed("C20", "nil ToActivity nil top panic@ToActivity", "0dccdd1", "ToActivity(nil) called reflect.TypeOf(nil).ConvertibleTo", "cells: ToActivity nil top")
 
+# ---- C04
+fixed("C04", "total hang * follow-up nesting:lists", "1bf2f5d", "duplicated rows in the gob encoder encoded tag/shares/inbox twice per level: GobEncode cost doubled with each nesting level (10 s for 20 levels)", "nesting layer: lists depth 100")
+fixed("C04", "total panic@(*NaturalLanguageValues).UnmarshalText *", "fdef947", "NaturalLanguageValues.UnmarshalText indexed data[0] on empty input and sliced [1:0] on a lone quote", "tiny layer: (*NaturalLanguageValues).UnmarshalText with empty input")
+fixed("C04", "total hang * follow-up nesting:collection", "3fad8c5", "OrderedCollection.Equals compared the ordered items twice per level: ItemsEqual on nested ordered collections was exponential", "nesting layer: collection depth 100")
+fixed("C04", "total hang * follow-up *", "64b3878", "ItemsEqual ran Object.Equals and then the specific Equals (which repeats it): exponential in the nesting depth of activities/actors/collections", "nesting layer: collection depth 100")
+
 out = {"comment": "Committed list of genuine defects of go-ap/activitypub found by the checks (rendered by tools/findings.py; never written at check run time). "
                   "status=known: recorded, not repaired; the check prints KNOWN-FINDING and masks exactly the keyed cell. "
                   "status=fixed: repaired by the named fix: commit in /repo; masks nothing, the violation is reported again if it returns.",
